@@ -66,10 +66,13 @@ CLAIMED['C15'] = dict(category='proof',
         'temperatures on every comparison path: new peak is attained and bounds the old peak and all cells, the height '
         'changes iff the old peak is strictly exceeded, region duct d of n writes entry len-n+d and nothing else, and '
         'the stored pin profile is the complete row (with this plane\'s z) of a pin attaining the new peak, owned by the peak record. '
-        'Bounded: the duct temperature table lists, for each duct it shows, the peak of that duct (3 generated problems).',
+        'The real CoolantTempTable.make is run on a reactor whose assemblies answer with distinct atoms and its printed '
+        'cells are read back: bulk outlet = mixed-mean outlet temperature, peak outlet = maximum of the final-plane '
+        'interior field, peak and height = the running peak, in the requested units. '
+        'Bounded: the duct temperature table lists, for each duct it shows, the peak of that duct (4 generated problems).',
    note=_ASSUME + 'Small array sizes (3 cells, 2-3 pins, 1-3 ducts) - the methods use only max/argmax over the arrays; '
         'the whole-sweep claim is the induction over steps (Lean lemmas running_max_ge / running_max_attained, thorough tier). '
-        'Other printed tables are not decided.',
+        'The rounding of printed numbers to two decimals and the other printed tables are not decided.',
    technique='contract-based deductive verification (proxy execution with exhaustive path enumeration over comparisons)')
 CLAIMED['C05'] = dict(category='proof',
    text='The real mesh construction is verified with all lengths on the 1e-12 m rounding grid (integer atoms, np.around and '
@@ -109,7 +112,8 @@ CLAIMED['C19'] = dict(category='proof',
         'parsing are not decided symbolically; the five built-in tables are run through the real reader as a BOUNDED run-time contract.',
    technique='contract-based deductive verification (proxy execution, exact normaliser with sqrt relations, sign certificates)')
 CLAIMED['C20'] = dict(category='proof',
-   text='Orificing._check_new_group is proved to be the spread test; one iteration of the grouping loop (cut from the real '
+   text='Orificing._check_new_group is proved to be the spread test; the statements of _group before its loop turn arbitrary '
+        '(also nearly equal) parameters into the same rows in exactly descending order; one iteration of the grouping loop (cut from the real '
         'source) is proved, for ANY outcome of the cut-off test, to split the descending list into consecutive non-empty '
         'groups covering every assembly once and to move the cut-off towards the requested count; the code after the loop '
         'returns exactly the requested number of groups or stops with an error from every loop-exit state. One iteration of '
